@@ -18,6 +18,9 @@ var LibLoader = packagelib.Loader{
 
 func load(r *rt.Runtime) (rt.Value, func()) {
 	pkg := rt.NewTable()
+	// Each runtime has its own random generator, so that seeding or drawing
+	// numbers in one runtime does not affect another.
+	rand := newGenerator()
 	r.SetEnv(pkg, "huge", rt.FloatValue(math.Inf(1)))
 	r.SetEnv(pkg, "maxinteger", rt.IntValue(math.MaxInt64))
 	r.SetEnv(pkg, "mininteger", rt.IntValue(math.MinInt64))
@@ -41,8 +44,8 @@ func load(r *rt.Runtime) (rt.Value, func()) {
 		r.SetEnvGoFunc(pkg, "min", min, 1, true),
 		r.SetEnvGoFunc(pkg, "modf", modf, 1, false),
 		r.SetEnvGoFunc(pkg, "rad", rad, 1, false),
-		r.SetEnvGoFunc(pkg, "random", random, 2, false),
-		r.SetEnvGoFunc(pkg, "randomseed", randomseed, 2, false),
+		r.SetEnvGoFunc(pkg, "random", rand.random, 2, false),
+		r.SetEnvGoFunc(pkg, "randomseed", rand.randomseed, 2, false),
 		r.SetEnvGoFunc(pkg, "sin", sin, 1, false),
 		r.SetEnvGoFunc(pkg, "sqrt", sqrt, 1, false),
 		r.SetEnvGoFunc(pkg, "tan", tan, 1, false),
@@ -330,8 +333,20 @@ func rad(t *rt.Thread, c *rt.GoCont) (rt.Cont, error) {
 	return c.PushingNext1(t.Runtime, y), nil
 }
 
-// TODO: have a per runtime random generator
-func random(t *rt.Thread, c *rt.GoCont) (rt.Cont, error) {
+// A generator is the random generator of one runtime.
+type generator struct {
+	*rand.Rand
+}
+
+func newGenerator() generator {
+	var seed int64
+	if binary.Read(crypto.Reader, binary.LittleEndian, &seed) != nil {
+		seed = rand.Int63()
+	}
+	return generator{rand.New(rand.NewSource(seed))}
+}
+
+func (rand generator) random(t *rt.Thread, c *rt.GoCont) (rt.Cont, error) {
 	var (
 		err error
 		m   int64 = 1
@@ -375,7 +390,7 @@ func random(t *rt.Thread, c *rt.GoCont) (rt.Cont, error) {
 	return c.PushingNext1(t.Runtime, rt.IntValue(m+r)), nil
 }
 
-func randomseed(t *rt.Thread, c *rt.GoCont) (rt.Cont, error) {
+func (rand generator) randomseed(t *rt.Thread, c *rt.GoCont) (rt.Cont, error) {
 	var (
 		seed int64
 		err  error
